@@ -63,7 +63,11 @@ func vMaterialise(dir string, c *vCase, order []int) error {
 		}
 		if nd.P == 2 || nd.P == 3 {
 			for _, f := range vLists {
-				m[f] = []string{f + "@" + vName(n) + ".1", f + "@" + vName(n) + ".2", f + "@" + vName(n) + ".3"}
+				if n%2 == 0 {
+					m[f] = []string{f + "@" + vName(n) + ".1", f + "@" + vName(n) + ".2", f + "@" + vName(n) + ".3"}
+				} else {
+					m[f] = []string{f + "@" + vName(n) + ".1"}
+				}
 			}
 		}
 		if nd.P == 3 {
